@@ -11,4 +11,7 @@ def findStrong {D} [DecidableEq D] (H : List Nat → D) (blocks : List (BlockSig
     Option (BlockSig D) :=
   (blocks.filter (·.weak = weak)).find? (·.strong = H data)
 
+/-- `u32::checked_add` -/
+def checkedAdd32 (a b : Nat) : Option Nat := if a + b ≤ 4294967295 then some (a + b) else none
+
 end Copia.DeltaSupport
